@@ -55,7 +55,8 @@ def record(case, ok, nontrivial_key=None, detail=None, fingerprint=None):
     if not ok:
         n_fp = sum(1 for f in failures if f["fingerprint"] == fingerprint)
         if (len(failures) < MAX_FAILURES and n_fp < 2) or (n_fp == 0 and len(failures) < 4 * MAX_FAILURES):
-            failures.append({"case": case, "detail": detail, "fingerprint": fingerprint, "history": list(_recent)})
+            failures.append({"case": case, "detail": detail, "fingerprint": fingerprint, "history": list(_recent),
+                             "hashseed": os.environ.get("PYTHONHASHSEED", "0")})
     _recent.append(case)
     if len(_recent) > HISTORY:
         del _recent[0]
